@@ -865,8 +865,12 @@ impl InternalKey {
 	pub(crate) fn cmp_by_timestamp(&self, other: &Self) -> Ordering {
 		// First compare by user key (ascending)
 		match self.user_key.cmp(&other.user_key) {
-			// If user keys are equal, compare by timestamp (descending - newer timestamps first)
-			Ordering::Equal => other.timestamp.cmp(&self.timestamp),
+			// If user keys are equal, compare by timestamp (descending - newer timestamps first);
+			// versions with the same timestamp are distinct versions: newer sequence number first
+			Ordering::Equal => match other.timestamp.cmp(&self.timestamp) {
+				Ordering::Equal => other.seq_num().cmp(&self.seq_num()),
+				ordering => ordering,
+			},
 			ordering => ordering,
 		}
 	}
